@@ -79,7 +79,7 @@ func GenVia(t *rapid.T, length int) (string, []int) {
 	case 0, 1, 2:
 		return "", nil
 	case 3:
-		return "reader", rapid.SliceOfN(rapid.SampledFrom([]int{0, 1, 7, 512, 2047, 2048, 2049, 32768, 40000}), 0, 4).Draw(t, "rsplit")
+		return "reader", rapid.SliceOfN(rapid.SampledFrom([]int{0, 1, 7, 512, 2047, 2048, 2049, 32768, 40000, ZeroRead}), 0, 4).Draw(t, "rsplit")
 	default:
 		sizes := []int{0, 0, 1, 100, 2047, 2048, 2049, 32767, 32768, 32769}
 		if length > 20000 {
